@@ -67,7 +67,7 @@ def doPrint (st : DState) (tgt : Target) (dbg root : Nat) (name : String) (args 
   let (rs, refs) := refsOf rnodes cargsOf (root + 1) (st.rs, []) root
   let st' := { st with rs := rs }
   match refs.find? (fun p => match p.2 with | .error _ => true | .ok _ => false) with
-  | some (_, .error e) => (st', "ERR make_ref:" ++ e)
+  | some (_, .error e) => (st', "ERR " ++ e)
   | _ =>
     let refOf := fun (i : Nat) => match refs.lookup i with | some (.ok r) => r | _ => "<unreached " ++ toString i ++ ">"
     let g : Graph Lab := recs.zipIdx.map fun (r, i) =>
